@@ -439,7 +439,7 @@ def job_c13_reference(chip, tier):
                      outside=["GFSK/LR-FHSS paths of the reference", "HAL timing (busy line, reset)"])
         res = dict(entry=entry, verdict="held", queries=0, solver_time_s=0.0, validated=0, replay=None)
         try:
-            src = c13gen.swl_dir(chip)
+            src = c13gen.swl_dir(c13gen.C_SRC[chip])
             cfile = os.path.join(logdir, "c13_%s_harness.c" % chip)
             open(cfile, "w").write(c13gen.c_harness(chip))
 
@@ -447,7 +447,7 @@ def job_c13_reference(chip, tier):
                 backs = [["--z3"], ["--cvc5"]] if o.get("smt") else [["--sat-solver", "cadical"]]
                 outs = []
                 for b in backs:
-                    cmd = ["cbmc", cfile, "-I" + src, "--function", "h_" + o["id"], "--unwind", "13", "--unwinding-assertions"] + c13gen.C_DEFINES.get(chip, []) + b
+                    cmd = ["cbmc", cfile, "-I" + src, "--function", "h_" + o["id"], "--unwind", "13" if chip == "sx126x" else "260", "--unwinding-assertions"] + c13gen.C_DEFINES.get(chip, []) + b
                     rc, out, dt = _run(cmd, timeout=300)
                     open(os.path.join(logdir, "c13_%s_%s%s.log" % (chip, o["id"], b[0])), "w").write(out)
                     outs.append((rc, out, dt))
